@@ -24,8 +24,9 @@ def _impl(n, pk, tr, ri, de):
     try:
         with warnings.catch_warnings():
             warnings.simplefilter('ignore')
-            pha = extrema_interpolated_phase(np.zeros(n), np.array(pk, dtype=int), np.array(tr, dtype=int),
-                                             None if ri is None else np.array(ri, dtype=int), None if de is None else np.array(de, dtype=int))
+            # index containers as int64 arrays, int32 arrays or plain python lists
+            mk = [lambda v: np.array(v, dtype=int), lambda v: np.array(v, dtype=np.int32), lambda v: [int(x) for x in v]][(n + len(pk) + len(tr)) % 3]
+            pha = extrema_interpolated_phase(np.zeros(n), mk(pk), mk(tr), None if ri is None else mk(ri), None if de is None else mk(de))
         return ['ok', [float(x) / (math.pi / 2) for x in pha]]
     except Exception as e:
         return ['err', type(e).__name__]
